@@ -58,6 +58,14 @@ impl<S> TlsStream<S> {
     {
         self.0.get_mut().set_context(ctx);
         let g = Guard(self);
+        #[cfg(compio_verif)]
+        let f = |s: &mut native_tls::TlsStream<AllowStd<S>>| {
+            crate::verif::emit(crate::verif::TOP_ENTER, 0, 0, 0);
+            let r = f(s);
+            let (kind, _) = crate::verif::io_result(&r, |_| 0);
+            crate::verif::emit(crate::verif::TOP_EXIT, kind, 0, 0);
+            r
+        };
         match f(&mut (g.0).0) {
             Ok(v) => Poll::Ready(Ok(v)),
             Err(ref e) if e.kind() == io::ErrorKind::WouldBlock => Poll::Pending,
@@ -159,10 +167,14 @@ where
 
         match (inner.f)(stream) {
             Ok(mut s) => {
+                #[cfg(compio_verif)]
+                crate::verif::emit(crate::verif::HS_START, 0, 0, 0);
                 s.get_mut().clear_context();
                 Poll::Ready(Ok(StartedHandshake::Done(TlsStream(s))))
             }
             Err(HandshakeError::WouldBlock(mut s)) => {
+                #[cfg(compio_verif)]
+                crate::verif::emit(crate::verif::HS_START, 1, 0, 0);
                 s.get_mut().clear_context();
                 Poll::Ready(Ok(StartedHandshake::Mid(s)))
             }
@@ -223,10 +235,14 @@ impl<S: AsyncRead + AsyncWrite + Unpin> Future for MidHandshake<S> {
         s.get_mut().set_context(cx);
         match s.handshake() {
             Ok(mut s) => {
+                #[cfg(compio_verif)]
+                crate::verif::emit(crate::verif::HS_MID, 0, 0, 0);
                 s.get_mut().clear_context();
                 Poll::Ready(Ok(TlsStream(s)))
             }
             Err(HandshakeError::WouldBlock(mut s)) => {
+                #[cfg(compio_verif)]
+                crate::verif::emit(crate::verif::HS_MID, 1, 0, 0);
                 s.get_mut().clear_context();
                 mut_self.0 = Some(s);
                 Poll::Pending
